@@ -7,18 +7,22 @@
 EXTENDS Concurrency
 CONSTANT NProcs, WithNul
 Pat == <<"K", "1">>
-A == [pat |-> Pat, groups |-> << <<"<", "a", ">">>, <<"a">> >>]
-B == [pat |-> Pat, groups |-> << <<"<", "b", ">">>, <<"b">> >>]
-N1 == [pat |-> Pat, groups |-> << <<"a", "0", "b">>, <<"a", "0", "b">> >>]
-N2 == [pat |-> Pat, groups |-> << <<"a", "0", "b">>, <<"a">>, <<"b">> >>]
-UseName(u) == CASE u = A -> "A" [] u = B -> "B" [] u = N1 -> "N1" [] u = N2 -> "N2"
+A == [pat |-> Pat, refs |-> <<1>>, groups |-> << <<"<", "a", ">">>, <<"a">> >>]
+B == [pat |-> Pat, refs |-> <<1>>, groups |-> << <<"<", "b", ">">>, <<"b">> >>]
+N1 == [pat |-> Pat, refs |-> <<1>>, groups |-> << <<"a", "0", "b">>, <<"a", "0", "b">> >>]
+N2 == [pat |-> Pat, refs |-> <<1>>, groups |-> << <<"a", "0", "b">>, <<"a">>, <<"b">> >>]
+\* a rule referring to two groups (close = \2\1 after open = ([a-z])(["'])): D1 and D2 agree on the first-referenced group
+Pat21 == <<"K", "2", "K", "1">>
+D1 == [pat |-> Pat21, refs |-> <<2, 1>>, groups |-> << <<"a", "q">>, <<"a">>, <<"q">> >>]
+D2 == [pat |-> Pat21, refs |-> <<2, 1>>, groups |-> << <<"b", "q">>, <<"b">>, <<"q">> >>]
+UseName(u) == CASE u = A -> "A" [] u = B -> "B" [] u = N1 -> "N1" [] u = N2 -> "N2" [] u = D1 -> "D1" [] u = D2 -> "D2"
 \* one lexing call over "<a>t</a>" uses the end rule twice: first on "t</a>" (no match), then on "</a>"
 Call(u) == <<u, u>>
-PlainUses == {A, B}
+PlainUses == {A, B, D1, D2}
 NulUses == {N1, N2}
 MCProcs == 1..NProcs
 MCScenarios == {[p \in MCProcs |-> Call(f[p])] : f \in [MCProcs -> (IF WithNul THEN NulUses ELSE PlainUses)]}
-MCHistories == IF WithNul THEN {{}, {N1}, {N2}} ELSE {{}, {A}, {B}}
+MCHistories == IF WithNul THEN {{}, {N1}, {N2}} ELSE {{}, {A}, {B}, {D1}, {D2}}
 
 RECURSIVE SchedStr(_, _), CallsStr(_), HistStr(_)
 SchedStr(s, i) == IF i > Len(s) THEN "" ELSE (IF i > 1 THEN " " ELSE "") \o ToString(s[i][1]) \o ":" \o s[i][2] \o (IF s[i][3] = "" THEN "" ELSE ":" \o s[i][3]) \o SchedStr(s, i + 1)
